@@ -595,7 +595,7 @@ class Scheduler:
 
         # Check if we have a running process
         process = await job.aio_process()
-        if process is not None:
+        if process is not None and not job.state.finished():
             # Yep! First we notify the listeners
             job.state = JobState.RUNNING
             for listener in self.listeners:
